@@ -1,4 +1,7 @@
 open Drv_common
+module M = struct
+  include Drv_common.M
+end
 (* ------------------------------------------------------------------ curve *)
 let rates_s (r : M.rates) : string =
   String.concat " " [zs r.M.r_base; zs r.M.r_lending; zs r.M.r_borrowing; zs r.M.r_group; zs r.M.r_insurance; zs r.M.r_protocol]
@@ -9,7 +12,7 @@ let suite_curve (line : string) : string =
   let pf = parse_pf t in
   let n = ni t in
   let v = res_s (fun () -> "OK") (M.ir_validate c) in
-  let outs = List.init n (fun _ -> let ur = nz t in res_s rates_s (M.calc_interest_rate c pf ur)) in
+  let outs = Stdlib.List.init n (fun _ -> let ur = nz t in res_s rates_s (M.calc_interest_rate c pf ur)) in
   String.concat " | " (v :: outs)
 
 
